@@ -565,3 +565,68 @@ def inline_value_helpers(model, module, fn, names=None, skip=()):
     new = clone(fn)
     new.body = expand(fn.body)
     return _set_parents(new) if changed else fn
+
+
+def eval3(e, atoms):
+    """Three-valued truth value of test `e` given {normalised atom text: bool}: True / False / None (unknown).  `a == b`,
+    `b == a`, `not a != b` ... are one atom: equality atoms are keyed as 'L==R' with the operands sorted."""
+    def key(x):
+        return ast.unparse(x).replace(" ", "")
+    if isinstance(e, ast.Constant):
+        return bool(e.value)
+    if isinstance(e, ast.UnaryOp) and isinstance(e.op, ast.Not):
+        v = eval3(e.operand, atoms)
+        return None if v is None else not v
+    if isinstance(e, ast.BoolOp):
+        vs = [eval3(v, atoms) for v in e.values]
+        if isinstance(e.op, ast.And):
+            return False if any(v is False for v in vs) else (True if all(v is True for v in vs) else None)
+        return True if any(v is True for v in vs) else (False if all(v is False for v in vs) else None)
+    if isinstance(e, ast.Compare) and len(e.ops) == 1 and isinstance(e.ops[0], (ast.Eq, ast.NotEq)):
+        k = "==".join(sorted((key(e.left), key(e.comparators[0]))))
+        if k in atoms:
+            return atoms[k] if isinstance(e.ops[0], ast.Eq) else not atoms[k]
+        return None
+    return atoms.get(key(e))
+
+
+def facts_refute(facts, atoms):
+    """True if the signed facts [(test, polarity)] cannot all hold under the given atom values."""
+    for t, pol in facts:
+        v = eval3(t, atoms)
+        if v is not None and v != pol:
+            return True
+    return False
+
+
+def desugar_yield_from(fn):
+    """A copy of function node `fn` in which a statement `yield from (E for v in IT if C ...)` is written as the loops it
+    abbreviates (`for v in IT: if C: yield E`), so that rules stated over loops read both spellings."""
+    changed = False
+
+    def conv(stmts):
+        nonlocal changed
+        out = []
+        for s_ in stmts:
+            v = s_.value if isinstance(s_, ast.Expr) else None
+            if isinstance(v, ast.YieldFrom) and isinstance(v.value, (ast.GeneratorExp, ast.ListComp)):
+                g = v.value
+                inner = [ast.Expr(value=ast.Yield(value=g.elt))]
+                for comp in reversed(g.generators):
+                    for c in reversed(comp.ifs):
+                        inner = [ast.If(test=c, body=inner, orelse=[])]
+                    inner = [ast.For(target=comp.target, iter=comp.iter, body=inner, orelse=[])]
+                for x in inner:
+                    ast.copy_location(x, s_)
+                    ast.fix_missing_locations(x)
+                out.extend(inner)
+                changed = True
+                continue
+            for fld in ("body", "orelse", "finalbody"):
+                if isinstance(getattr(s_, fld, None), list) and not isinstance(s_, (ast.FunctionDef, ast.ClassDef)):
+                    setattr(s_, fld, conv(getattr(s_, fld)))
+            out.append(s_)
+        return out
+    new = clone(fn)
+    new.body = conv(new.body)
+    return _set_parents(new) if changed else fn
